@@ -11,7 +11,7 @@ from ..report import Rule, RuleCtx
 from ..cfg import CFG, Node
 from .. import tables, rx
 from ..tables import Atom
-from ..paths import enumerate_paths, Path
+from ..paths import enumerate_paths
 from ..consteval import fold_const, Regex
 from .c03_flow import OFlow, SanCall, strip_proj
 
@@ -34,11 +34,11 @@ EXPLANATION = (
     'quote_arg is shlex.quote. R4: meson_exe/mtest pass argv lists to Popen/create_subprocess_exec without a shell and '
     'without joining; argv order; test args stored unchanged. R5: only whitelisted rewrites in eval_custom_target_command '
     'and escape_extra_args. R6: a newline in an argument forces the pickled wrapper, which receives the unmodified '
-    'serialisation; R6b: environment values placed on the command line by the `env` shortcut get the same newline test. NOT decided: the behaviour of ninja, /bin/sh, shlex.quote, cmd.exe and compiler response-file parsers.')
+    'serialisation (an information note reports whether environment values placed on the command line by the `env` shortcut are newline-tested; not an obligation). NOT decided: what shlex.quote/cmd_quote produce for a given string,  the behaviour of ninja, /bin/sh, shlex.quote, cmd.exe and compiler response-file parsers.')
 ASSUMPTIONS = ['ninja treats exactly `$`, space, newline (and `:` on build lines) as special and `$x` as escape of x',
                'shlex.quote / CommandLineToArgvW quoting are inverse to the respective shell word splitting',
                'subprocess.Popen / asyncio.create_subprocess_exec pass a list argv unchanged when no shell is requested']
-TECHNIQUE = 'sanitiser flow (scoped origin sets) + decision tables + regex language facts + CFG dominance'
+TECHNIQUE = 'sanitiser flow (scoped origin sets, def-use) + decision tables over canonical atoms with symbolic row shapes + constant folding / regex-structure facts + CFG dominance'
 
 QUOTE_FUNCS = {'cmd_quote', 'gcc_rsp_quote', 'quote_func'}
 BUILD_SOURCES = ['infilenames', 'outfilenames', 'implicit_outfilenames', 'deps', 'orderdeps']
@@ -83,45 +83,79 @@ def _is_true(e: T.Optional[ast.AST]) -> bool:
     return isinstance(e, ast.Constant) and e.value is True
 
 
-def _sym_paths(fn: ast.AST) -> T.List[T.Tuple[Path, T.Optional[ast.AST]]]:
-    """Paths of a straight-line/branching function with the returned expression expressed over the parameters
-    (sequential substitution of simple assignments)."""
-    out = []
-    for p in enumerate_paths(fn.body):  # type: ignore[attr-defined]
-        env: T.Dict[str, ast.AST] = {}
-        val = None
-        for ev in p.events:
-            if ev.kind != 'stmt':
-                continue
-            st = ev.node
-            if isinstance(st, ast.Assign) and len(st.targets) == 1 and isinstance(st.targets[0], ast.Name):
-                env[st.targets[0].id] = tables._Subst(dict(env)).visit(tables._copy(st.value))
-            elif isinstance(st, ast.AnnAssign) and isinstance(st.target, ast.Name) and st.value is not None:
-                env[st.target.id] = tables._Subst(dict(env)).visit(tables._copy(st.value))
-            elif isinstance(st, ast.Return) and st.value is not None:
-                val = tables._Subst(dict(env)).visit(tables._copy(st.value))
-            elif isinstance(st, (ast.Assign, ast.AugAssign)):
-                raise Undecided(f'{getattr(fn, "name", "?")}: assignment form {short(st)} outside the symbolic subset')
-        out.append((p, val))
-    return out
+def _row_shape(r: tables.Row) -> T.Tuple[str, T.Tuple[str, ...]]:
+    """(outcome text, effects on parameters/attributes) of a table row; assignments to plain locals are dropped
+    (the engine has inlined single-definition locals into the outcome)."""
+    oc = r.outcome[1] if r.outcome[0] == 'return' else ' '.join(map(str, r.outcome))
+    return oc, tuple(e for e in r.effects if re.match(r'(ARG\w*|self\.[\w.]+) (:=|\+=) ', e))
 
 
-def _sym_value(p: Path, rename: T.Dict[str, str]) -> str:
-    """Returned expression of one path over renamed parameters, locals substituted in path order."""
-    env: T.Dict[str, ast.AST] = {k: ast.Name(id=v, ctx=ast.Load()) for k, v in rename.items()}
-    for ev in p.events:
-        st = ev.node
-        if ev.kind != 'stmt':
-            continue
-        if isinstance(st, ast.Assign) and len(st.targets) == 1 and isinstance(st.targets[0], ast.Name):
-            env[st.targets[0].id] = tables._Subst(dict(env)).visit(tables._copy(st.value))
-        elif isinstance(st, ast.AnnAssign) and isinstance(st.target, ast.Name) and st.value is not None:
-            env[st.target.id] = tables._Subst(dict(env)).visit(tables._copy(st.value))
-        elif isinstance(st, ast.Return):
-            return norm(tables._Subst(dict(env)).visit(tables._copy(st.value))) if st.value is not None else 'None'
-        elif isinstance(st, (ast.Assign, ast.AugAssign)):
-            raise Undecided(f'assignment form {short(st)} outside the symbolic subset')
-    return '<no return>'
+def _inline_single_defs(text: str, fn: ast.AST, pure: T.Set[str]) -> str:
+    """Copy propagation on an outcome text: a remaining local name with exactly one definition in the function
+    (outside loops, a pure expression) is replaced by that definition, parameters renamed as in sa.tables.
+    (sa.tables does not inline a local whose definition reads another assigned local.)"""
+    params = tables._param_map(fn)   # type: ignore[arg-type]
+    defs: T.Dict[str, T.List[T.Optional[ast.AST]]] = {}
+    in_loop: T.Set[int] = set()
+    for n in walk_no_nested(fn):
+        if isinstance(n, (ast.For, ast.While, ast.AsyncFor)):
+            in_loop |= {id(x) for x in ast.walk(n)}
+    for n in walk_no_nested(fn):
+        if isinstance(n, ast.Assign) and len(n.targets) == 1 and isinstance(n.targets[0], ast.Name):
+            defs.setdefault(n.targets[0].id, []).append(None if id(n) in in_loop else n.value)
+        elif isinstance(n, ast.Name) and isinstance(n.ctx, ast.Store):
+            defs.setdefault(n.id, [])
+    for n in walk_no_nested(fn):
+        if isinstance(n, ast.Name) and isinstance(n.ctx, ast.Store) and not any(True for v in defs.get(n.id, []) if v is not None) and n.id in defs and not defs[n.id]:
+            defs[n.id] = [None, None]   # bound by something other than a simple assignment
+
+    def ok(v: T.Optional[ast.AST]) -> bool:
+        if v is None:
+            return False
+        for c in ast.walk(v):
+            if isinstance(c, ast.Call):
+                nm = c.func.attr if isinstance(c.func, ast.Attribute) else (c.func.id if isinstance(c.func, ast.Name) else '')
+                if nm not in pure:
+                    return False
+            if isinstance(c, (ast.Await, ast.Yield, ast.YieldFrom, ast.NamedExpr, ast.Lambda)):
+                return False
+        return True
+    e = _expr(text)
+    for _ in range(6):
+        names = {n.id for n in ast.walk(e) if isinstance(n, ast.Name)}
+        todo = {nm: defs[nm][0] for nm in names if nm in defs and nm not in params and len(defs[nm]) == 1 and ok(defs[nm][0])}
+        if not todo:
+            break
+        mapping = {nm: tables._Subst(dict(params), params).visit(tables._copy(v)) for nm, v in todo.items()}
+        e = tables._Subst(mapping).visit(tables._copy(e))
+    return norm(e)
+
+
+def _template_items(repl: str) -> T.List[T.Any]:
+    """Constant folding of a literal re replacement template: literal text and group numbers/names."""
+    out: T.List[T.Any] = []
+    pos = 0
+    for m in re.finditer(r'\\g<(\w+)>|\\(\d{1,2})|\\(.)', repl):
+        if m.start() > pos:
+            out.append(repl[pos:m.start()])
+        if m.group(1) is not None:
+            out.append(int(m.group(1)) if m.group(1).isdigit() else ('name', m.group(1)))
+        elif m.group(2) is not None:
+            out.append(int(m.group(2)))
+        elif m.group(3) == '\\':
+            out.append('\\')
+        else:
+            raise Undecided(f'replacement template escape \\{m.group(3)}')
+        pos = m.end()
+    if pos < len(repl):
+        out.append(repl[pos:])
+    merged: T.List[T.Any] = []
+    for x in out:
+        if isinstance(x, str) and merged and isinstance(merged[-1], str):
+            merged[-1] += x
+        else:
+            merged.append(x)
+    return merged
 
 
 def _only_via_edge(cfg: CFG, node: Node, test: Node, label: T.Any) -> bool:
@@ -298,7 +332,7 @@ def r1b(ctx: RuleCtx) -> None:
     ps = [a.arg for a in fn.args.args]
     if len(ps) != 2 or len(fn.args.defaults) != 1:
         raise Undecided(f'{qn}: expected (arg, quote function = default)')
-    tab = tables.extract(fn, name=qn)
+    tab = tables.extract(fn, name=qn, inline_calls={ps[1], 'ninja_quote'})   # the quote functions are pure: locals holding their results are inlined
     atoms: T.Dict[Atom, str] = {}
     for a in tab.atoms():
         ok = (a.kind == 'cmp' and a.args[0] == 'eq' and a.args[1] == 'ARG1.quoting' and a.args[2].startswith('Quoting.')) or \
@@ -306,14 +340,13 @@ def r1b(ctx: RuleCtx) -> None:
         if not ok:
             raise Undecided(f'{qn}: condition {a!r} outside the vocabulary')
         atoms[a] = a.args[-1].split('.')[1]
-    strfn = mod.func('NinjaCommandArg.__str__')
-    str_is_s = [norm(v) for _, v in _sym_paths(strfn)] == ['self.s']
+    str_is_s = [r.outcome for r in tables.extract(mod.func('NinjaCommandArg.__str__')).rows] == [('return', 'self.s')]
     ref = {'none': 'ARG1.s', 'notNinja': 'ARG2(ARG1.s)', 'notShell': 'ninja_quote(ARG1.s)', 'both': 'ninja_quote(ARG2(ARG1.s))'}
     for m in members:
         rows = tab.fire({a: (k == m) for a, k in atoms.items()})
         if len(rows) != 1:
             raise Undecided(f'{qn}: {len(rows)} rows fire for Quoting.{m}')
-        got = _sym_value(rows[0].path, {ps[0]: 'ARG1', ps[1]: 'ARG2'}) if rows[0].outcome[0] == 'return' else ' '.join(map(str, rows[0].outcome))
+        got = _inline_single_defs(rows[0].outcome[1], fn, {ps[1], 'ninja_quote', 'str'}) if rows[0].outcome[0] == 'return' else ' '.join(map(str, rows[0].outcome))
         if str_is_s:
             got = got.replace('str(ARG1)', 'ARG1.s')
         ctx.require(got == ref[m], f'{qn}: Quoting.{m} -> {got}', mod, qn, f'Quoting.{m} -> {got}',
@@ -537,9 +570,11 @@ def r2(ctx: RuleCtx) -> None:
                         pn = eval_recv(e.func.value, flag, r)
                         cls = pat_class(pn)
                         repl = e.args[0].value
-                        badrepl = [c for c in sorted(cls - {'\n'}) if re.sub(regs[pn].pattern, repl, c, flags=regs[pn].flags) != '$' + c]
-                        if badrepl:
-                            ctx.violation(mod, qn, f'{pn}.sub({repl!r})', f'replacement {repl!r} does not turn {badrepl[0]!r} into {"$" + badrepl[0]!r} (ninja escape is `$` + character)', node)
+                        if not isinstance(repl, str):
+                            raise Undecided(f'{qn}: non-string replacement {repl!r}')
+                        items = _template_items(repl)
+                        if items != ['$', 0]:
+                            ctx.violation(mod, qn, f'{pn}.sub({repl!r})', f'replacement template {repl!r} folds to {items}; the ninja escape is the literal `$` followed by the whole match (group 0)', node)
                             continue
                         got, how = present & cls, f'escapes {sorted(cls - {chr(10)})!r} ({pn})'
                     else:
@@ -759,26 +794,56 @@ def r3b(ctx: RuleCtx) -> None:
                         pats.append(c.args[0].value)
     if len(set(pats)) != 1:
         raise Undecided(f'{qn}: cannot find the single constant regex that extracts the variable name ({pats})')
-    samples = {'$DEPFILE_UNQUOTED': 'DEPFILE_UNQUOTED', '${DESC}': 'DESC', '$out.rsp': 'out', '$ARGS': 'ARGS'}
-    bad = {s: (re.match(pats[0], s).group(1) if re.match(pats[0], s) else None) for s, w in samples.items()}  # constant folding of a literal regex
-    bad = {s: g for s, g in bad.items() if g != samples[s]}
-    ctx.require(not bad, f'{qn}: {pats[0]!r} extracts the variable name of $name / ${{name}} references', mod, qn, f'name regex {pats[0]}',
-                f'the name regex {pats[0]!r} extracts {bad}: the raw_names lookup uses a wrong name')
+    ok, why = _name_regex_shape(pats[0])
+    ctx.require(ok, f'{qn}: {pats[0]!r}: {why}', mod, qn, f'name regex {pats[0]}',
+                f'the regex {pats[0]!r} that extracts the variable name for the raw_names lookup: {why}')
+
+
+def _name_regex_shape(pattern: str) -> T.Tuple[bool, str]:
+    """Structure of the `$name` / `${name}` regex: `$`, optional `{`, group 1 = an unbounded run of word characters."""
+    sre_c = rx.sre_c
+    items = list(rx.parse(pattern))
+    if not items or items[0] != (sre_c.LITERAL, ord('$')):
+        return False, 'does not start with a literal `$`'
+    rest = items[1:]
+    if rest and rest[0][0] is sre_c.MAX_REPEAT and rest[0][1][0] == 0 and rest[0][1][1] == 1 and list(rest[0][1][2]) == [(sre_c.LITERAL, ord('{'))]:
+        rest = rest[1:]
+    if not rest or rest[0][0] is not sre_c.SUBPATTERN or rest[0][1][0] != 1:
+        raise Undecided(f'variable-name regex {pattern!r}: group 1 does not directly follow `$` / `${{`')
+    body = list(rest[0][1][3])
+    if len(body) == 1 and body[0][0] is sre_c.IN:
+        return False, 'group 1 captures a single character, not the whole variable name'
+    if len(body) != 1 or body[0][0] not in (sre_c.MAX_REPEAT, sre_c.MIN_REPEAT):
+        raise Undecided(f'variable-name regex {pattern!r}: body of group 1 is not a repeat of one class')
+    lo, hi, sub = body[0][1]
+    sub = list(sub)
+    if hi is not sre_c.MAXREPEAT or body[0][0] is sre_c.MIN_REPEAT:
+        return False, 'group 1 does not greedily capture the whole run of name characters'
+    if len(sub) != 1 or sub[0][0] is not sre_c.IN:
+        raise Undecided(f'variable-name regex {pattern!r}: group 1 repeats something other than a character class')
+    cls = rx.class_chars(sub[0][1], UNIVERSE)
+    want = {c for c in UNIVERSE if c.isalnum() or c == '_'}
+    if cls != want:
+        return False, f'group 1 accepts {sorted(cls ^ want)!r} differently from ninja identifier characters'
+    return True, '`$`, optional `{`, group 1 = greedy run of word characters'
 
 
 def r3c(ctx: RuleCtx) -> None:
     mod = ctx.repo.module(NINJA)
     qn = 'gcc_rsp_quote'
     fn = mod.func(qn)
-    p = fn.args.args[0].arg
-    sp = _sym_paths(fn)
-    ctx.floor(f'{qn}: paths', len(sp), 1)
-    for path, val in sp:
-        ok = isinstance(val, ast.Call) and isinstance(val.func, ast.Name) and val.func.id == 'quote_func' and len(val.args) == 1 \
-            and norm(val.args[0]) == f"{p}.replace('\\\\', '\\\\\\\\')"
-        ctx.require(ok, f'{qn}: returns quote_func(text with every backslash doubled)', mod, qn, f'return {norm(val)}',
-                    f'{qn} returns {short(val)}: GCC-style response files (libiberty buildargv) treat a backslash as escape even inside quotes, '
-                    'so backslashes must be doubled before shell-style quoting', path.events[-1].node if path.events else fn)
+    tab = tables.extract(fn, effects=_assign_eff, name=qn, inline_calls={'replace', 'quote_func', 'cmd_quote', 'quote_arg'})
+    ctx.floor(f'{qn}: paths', len(tab.rows), 1)
+    dbl = "ARG1.replace('\\\\', '\\\\\\\\')"
+    for r in tab.rows:
+        shape = _row_shape(r)
+        if r.outcome[0] == 'return':
+            shape = (_inline_single_defs(shape[0], fn, {'replace', 'quote_func', 'cmd_quote', 'quote_arg'}), shape[1])
+        ok = shape in ((f'quote_func({dbl})', ()), ('quote_func(ARG1)', (f'ARG1 := {dbl}',)))
+        ctx.require(ok, f'{qn}: returns quote_func(text with every backslash doubled)', mod, qn, f'return {shape[0]} after {list(shape[1])}',
+                    f'{qn} returns {shape[0]} after {list(shape[1])}: GCC-style response files (libiberty buildargv) treat a backslash as escape even inside quotes, '
+                    'so backslashes must be doubled before shell-style quoting (expected quote_func of the argument with .replace of one backslash by two)',
+                    r.path.events[-1].node if r.path.events else fn)
     # quote_func binding at module level
     ifs = [st for st in mod.tree.body if isinstance(st, ast.If) and any(isinstance(n, ast.Name) and n.id == 'quote_func' and isinstance(n.ctx, ast.Store) for n in ast.walk(st))]
     others = [st for st in mod.tree.body if not isinstance(st, ast.If) and isinstance(st, (ast.Assign, ast.AnnAssign))
@@ -807,9 +872,8 @@ def r3c(ctx: RuleCtx) -> None:
             for f in st.orelse:
                 if isinstance(f, ast.FunctionDef) and f.name == 'quote_arg':
                     found += 1
-                    vals = [norm(v) for _, v in _sym_paths(f)]
-                    a = f.args.args[0].arg
-                    ctx.require(vals == [f'shlex.quote({a})'], 'POSIX quote_arg returns shlex.quote(arg)', um, 'quote_arg', f'return {vals}',
+                    vals = [_row_shape(r) for r in tables.extract(f, effects=_assign_eff, inline_calls={'quote'}).rows]
+                    ctx.require(vals == [('shlex.quote(ARG1)', ())], 'POSIX quote_arg returns shlex.quote(arg)', um, 'quote_arg', f'return {vals}',
                                 f'the POSIX quote_arg returns {vals}, not shlex.quote of its argument', f)
     ctx.floor('POSIX definition of quote_arg', found, 1)
 
@@ -939,7 +1003,7 @@ def r4b(ctx: RuleCtx) -> None:
     qn4 = 'SingleTestRunner._get_cmd'
     fn4 = mod.func(qn4)
     fl4 = OFlow(fn4)
-    rets = [v for _, v in _sym_paths(fn4) if v is not None and not (isinstance(v, ast.Constant) and v.value is None)]
+    rets = [st.value for st in walk_no_nested(fn4) if isinstance(st, ast.Return) and st.value is not None and not (isinstance(st.value, ast.Constant) and st.value.value is None)]
     ctx.floor(f'{qn4}: returned commands', len(rets), 1)
     for v in rets:
         ch = _concat_chain(v, fl4)
@@ -1133,15 +1197,20 @@ def r5b(ctx: RuleCtx) -> None:
         allp |= ps_
     ctx.require(allp == {'-D', '/D'}, f'{qn}: prefixes tested {sorted(allp)}', mod, qn, f'prefix guard {sorted(allp)}',
                 f'backslashes are doubled for arguments starting with {sorted(allp)}; the established rewrite applies to -D and /D only')
-    for sample in sorted(allp | {'-D', '/D'}) + ['-I']:
-        g = sample in ('-D', '/D')
-        rows = tab.fire({a: any(sample.startswith(p) for p in ps_) for a, ps_ in guards.items()})
+    gl = list(guards)
+    for bits in itertools.product((True, False), repeat=len(gl)):
+        world = dict(zip(gl, bits))
+        g = any(bits)
+        rows = tab.fire(world)
+        if not rows and sum(bits) > 1:
+            continue      # two different prefixes at once: no such argument
         if len(rows) != 1:
-            raise Undecided(f'{qn}: {len(rows)} rows for an argument starting with {sample}')
+            raise Undecided(f'{qn}: {len(rows)} rows for prefix tests {bits}')
         want = ([f"{it} := {it}.replace('\\\\', '\\\\\\\\')"] if g else []) + [f'call {out}.append({it})']
         got = list(rows[0].effects)
-        ctx.require(got == want, f'{qn}: argument {sample}...: {got}', mod, qn, f'{sample}: {got}',
-                    f'for an argument starting with {sample} the function does {got}; the established behaviour is {want}', rows[0].path.events[-1].node)
+        ctx.require(got == want, f'{qn}: prefix test {"true" if g else "false"}: {got}', mod, qn, f'define={g}: {got}',
+                    f'for an argument that {"starts" if g else "does not start"} with one of {sorted(allp)} the function does {got}; the established behaviour is {want}',
+                    rows[0].path.events[-1].node)
     # call sites: only the per-target extra args
     n = 0
     for rel in (NINJA, BACKENDS):
@@ -1328,6 +1397,7 @@ def r6(ctx: RuleCtx) -> None:
         and not cfg.can_reach(ext[0], app[0])
     ctx.require(ok, f'{qn}: serialised command = [{ps[0]}] + list({ps[1]}), in this order', mod, qn, f'{cmdname}: {[norm(n.ast) for n in others]}',
                 f'the command given to get_executable_serialisation is built by {[short(n.ast) for n in others]}; expected {cmdname}.append({ps[0]}) then {cmdname}.extend({ps[1]})')
+    _env_note(ctx, R)
 
 
 def _concat_exprs(e: ast.AST, fl: OFlow, depth: int = 0) -> T.List[ast.AST]:
@@ -1338,10 +1408,9 @@ def _concat_exprs(e: ast.AST, fl: OFlow, depth: int = 0) -> T.List[ast.AST]:
     return [e]
 
 
-def r6b(ctx: RuleCtx) -> None:
+def _env_note(ctx: RuleCtx, R: _R6) -> None:
     """Environment values that are put on the ninja command line (the `env K=V cmd` shortcut) are run-time strings
-    like the arguments: a newline in one of them must also force the pickled wrapper."""
-    R = _R6(ctx)
+    but are not "argument strings" of the property: information only (coordinator triage), no obligation."""
     mod, qn, fl, cfg, es = R.mod, R.qn, R.fl, R.cfg, R.es
     direct, _ = R.returns()
     n = 0
@@ -1368,12 +1437,12 @@ def r6b(ctx: RuleCtx) -> None:
                 why = R.excluded(r, nl, F[0], F[0].ast.targets[0].id, reasons, msgs)
                 if why:
                     break
-            ctx.require(why is not None, f'{qn}: `{short(r.ast, 60)}`: environment values ({envs[0][5:]}) are newline-tested: {why}', mod, qn, r.ast,
-                        f'`{short(r.ast, 70)}` puts the values of {envs[0][5:]}() on the ninja command line (`{short(comp, 30)}`) but only the arguments are tested for a newline: '
-                        "witness custom_target(..., env: {'A': 'x\\ny'}) -> setup fails with `Ninja does not support newlines in rules`, "
-                        'while the same newline in an argument is carried by the pickled wrapper', r.ast)
-    if n == 0:
-        ctx.ok(f'{qn}: no return places environment values on the ninja command line')
+            if why is None:
+                ctx.note(f'OBSERVED (not an obligation of C03): `{short(r.ast, 70)}` puts the values of {envs[0][5:]}() on the ninja command line (`{short(comp, 30)}`) '
+                         "while only the arguments are tested for a newline; witness custom_target(..., env: {'A': 'x\\ny'}) -> `meson setup` fails loudly with "
+                         '`Ninja does not support newlines in rules`; no argument is altered, the same newline in an argument is carried by the pickled wrapper')
+            else:
+                ctx.note(f'{qn}: environment values on the command line are newline-tested ({why})')
 
 
 RULES = [
@@ -1390,5 +1459,4 @@ RULES = [
     Rule('C03.R5a', 'eval_custom_target_command: only whitelisted rewrites', r5a),
     Rule('C03.R5b', 'escape_extra_args: backslash doubling under the -D//D guard, per-target args only', r5b),
     Rule('C03.R6', 'newline in an argument forces the pickled wrapper with the unmodified serialisation', r6),
-    Rule('C03.R6b', 'environment values on the command line are newline-tested like the arguments', r6b),
 ]
